@@ -67,3 +67,25 @@ Definition c17_atomic_current : bool := true.
     list is still waiting to be sent (true, fix: commit); false = pinned: a newer event could
     overtake the held one. *)
 Definition c16_tracks_inflight_current : bool := true.
+
+(** C19 (schedules): base_store.go holds a mutex from the reads to the Set of
+    recalculateReplicationMax and of recalculateReplicationProgress (true, fix: commit);
+    false = before: only the individual Get/Set of the replication info are locked, so
+    recalculations issued by the event loop, a local writer and Load interleave. *)
+Definition c19_status_atomic_current : bool := true.
+
+(** C16 (store part): BaseStore.updateIndex runs under a mutex of its own, so the read of the
+    log and the application of the rebuild of one thread (writer or replication merger) exclude
+    those of the others (true, fix: commit 6f0b94a); false = the tree before that repair: a local
+    write and the merge of a replicated batch can interleave their rebuilds. *)
+Definition c16_index_serialised_current : bool := true.
+
+(** C18 switches (Model/Lifecycle.v [switches]; all repaired on this tree):
+    replicator.go processHash: the progress consumer receives until its channel is closed
+    (fix: 1bf5760); base_store.go Close calls UnsubscribeAll (fix: d1c24b9); address.go IsValid
+    refuses a ".." path segment (fix: ad3ae9b); cacheleveldown Destroy closes a registered cache
+    under the lock it holds (fix: d3ca8da).  false = the pinned commit. *)
+Definition c18_progress_drains_current : bool := true.
+Definition c18_close_unsubscribes_current : bool := true.
+Definition c18_rejects_dotdot_current : bool := true.
+Definition c18_destroy_inline_current : bool := true.
